@@ -30,7 +30,17 @@ int run_f_thread_entry_3(int);
 unsigned verif_slices_used;
 void f_sched(void) {
   f_K_init(); f_world_init();
-  int st[NT]; for (int i = 0; i < NT; i++) st[i] = 1;
+  int st[NT] = { 1
+#if NT > 1
+    , 1
+#endif
+#if NT > 2
+    , 1
+#endif
+#if NT > 3
+    , 1
+#endif
+  };   /* no loops besides the slice loop: it must stay the only loop (f_sched.0) for --unwindset */
   int alive = NT;
   for (int s = 0; s < SLICES; s++) {
     if (!alive) break;
@@ -43,7 +53,7 @@ void f_sched(void) {
         || RUNNABLE(3)
 #endif
         ;
-      if (!anyrun) break; }      /* stuck: judged after the loop (no inner loop here: the slice loop must stay loop 1 for --unwindset) */
+      if (!anyrun) break; }      /* stuck: judged after the loop (no inner loop here) */
     /* a deadline may expire without the sleeper running at once: it only becomes runnable, others may run first */
     { uint8_t u = nondet_u8();
       if (u == 0 && st[0] != 0) f_K_timeout_event(0); else if (u == 1 && st[1] != 0) f_K_timeout_event(1);
@@ -78,7 +88,16 @@ void f_sched(void) {
   if (alive) {
     /* nobody runnable and no deadline can expire, yet not everybody finished */
     stuck = 1;
-    for (int i = 0; i < NT; i++) if (st[i] != 0 && (!f_K_is_blocked(i) || f_K_can_timeout(i))) stuck = 0;
+    if (RUNNABLE(0)) stuck = 0;
+#if NT > 1
+    if (RUNNABLE(1)) stuck = 0;
+#endif
+#if NT > 2
+    if (RUNNABLE(2)) stuck = 0;
+#endif
+#if NT > 3
+    if (RUNNABLE(3)) stuck = 0;
+#endif
 #ifndef VERIF_STUCK_IS_LEGAL   /* for primitives where blocking forever can be legitimate (e.g. a semaphore that is never signalled) the harness judges the stuck state itself */
     __CPROVER_assert(!stuck, "no deadlock / lost wake-up: an unfinished thread is runnable or can still time out");
 #endif
